@@ -68,6 +68,9 @@ func serialClass(rng *rand.Rand, c int) (*big.Int, string) {
 	case 2:
 		return mk(0xff, 8), "0xff-8-bytes"
 	case 3:
+		if rng.Intn(2) == 0 {
+			return mk(0x80|byte(rng.Intn(0x80)), 20), "high-bit-20-bytes"
+		}
 		return mk(0x7f, 20), "0x7f-20-bytes"
 	case 4:
 		return mk(0x80|byte(rng.Intn(0x80)), 19), "high-bit-19-bytes"
